@@ -307,7 +307,9 @@ def classify_crash(prop, rc, err, why=None):
     if m:
         return ('%s:protection-fault:%s' % (prop, m.group(1).split(' detail=')[0][:110]), m.group(1)[:400], True)
     if why == 'WATCHDOG' or rc == 99 or rc == -999 or 'TIMEOUT' == err:
-        return ('%s:hang' % prop, 'run did not finish within the watchdog', True)
+        # a run that does not finish in time is a limit of the harness (plans are size-bounded; client/receiver livelocks are
+        # detected by deterministic call budgets inside the run), not a verdict about the library
+        return (None, 'run did not finish within the watchdog', False)
     if rc in (-11, -7) or why in ('SIGSEGV', 'SIGBUS'):
         return ('%s:crash:SIGSEGV' % prop, 'process died with a memory fault', True)
     if rc == -6 or why == 'SIGABRT':
